@@ -8,7 +8,9 @@
 (* number of configurations, slices and every exit_planes argument.            *)
 EXTENDS Multislice, TLC, Json
 CONSTANTS MaxSlices, MaxCfgs, Emit,
-          ResetPerConfig        \* TRUE: the code as fixed; FALSE reproduces the carried-over wave defect
+          ResetPerConfig,       \* TRUE: the code as fixed; FALSE reproduces the carried-over wave defect
+          ShortcutAnyPlane      \* FALSE: the code as fixed (be1ddf9a); TRUE reproduces "one exit plane + one configuration: the exit waves
+                                \* stand in for the record even when the plane is not the exit surface"
 VARIABLES n, ncfg, spec, planes, pc, cfg, sl, pl, wave, meas
 vars == <<n, ncfg, spec, planes, pc, cfg, sl, pl, wave, meas>>
 
@@ -28,7 +30,8 @@ RECURSIVE IncreasingSeqs(_, _)
 IncreasingSeqs(lo, hi) == IF lo > hi THEN {<< >>}
                           ELSE IncreasingSeqs(lo + 1, hi) \cup {<<lo>> \o t : t \in IncreasingSeqs(lo + 1, hi)}
 Specs(ns) == {<<"none">>} \cup {<<"int", k>> : k \in 1..(ns + 1)}
-             \cup {<<"tuple", t>> : t \in {t \in IncreasingSeqs(-1, ns - 1) : t # << >> /\ t[Len(t)] = ns - 1}}
+             \* an explicit tuple is taken as given: it need not end at the last slice (then nothing is recorded for the full run)
+             \cup {<<"tuple", t>> : t \in {t \in IncreasingSeqs(-1, ns - 1) : t # << >>}}
 
 Init == /\ n \in 1..MaxSlices /\ ncfg \in 1..MaxCfgs
         /\ spec \in Specs(n) /\ planes = Validate(spec, n)
@@ -47,8 +50,12 @@ Slice == /\ pc = "slice" /\ sl < n
          /\ UNCHANGED <<n, ncfg, spec, planes, cfg, pl, meas>>
 Detect == /\ pc = "detect" /\ Record /\ pl' = pl + 1 /\ pc' = "slice"
           /\ UNCHANGED <<n, ncfg, spec, planes, cfg, sl, wave>>
+(* multislice_and_detect allocates no measurements when the ensemble shape sums to one (a single configuration) and there is one *)
+(* exit plane: the waves after the last slice are returned instead of what was recorded                                       *)
+Shortcut == ncfg = 1 /\ Len(planes) = 1 /\ (ShortcutAnyPlane \/ planes[1] = n - 1)
 CfgEnd == /\ pc = "slice" /\ sl = n /\ cfg' = cfg + 1 /\ pc' = "cfgstart"
-          /\ UNCHANGED <<n, ncfg, spec, planes, sl, pl, wave, meas>>
+          /\ meas' = IF Shortcut THEN <<[cfg |-> cfg, plane |-> planes[1], wave |-> wave]>> ELSE meas
+          /\ UNCHANGED <<n, ncfg, spec, planes, sl, pl, wave>>
 Next == CfgStart \/ Entrance \/ Slice \/ Detect \/ CfgEnd
 Spec == Init /\ [][Next]_vars
 
@@ -60,7 +67,7 @@ Complete == (pc = "cfgstart" /\ cfg = ncfg) =>
               /\ Len(meas) = ncfg * Len(planes)
               /\ \A k \in 0..(ncfg - 1), p \in 1..Len(planes) :
                     LET m == meas[k * Len(planes) + p] IN m.cfg = k /\ m.plane = planes[p]
-              /\ planes[Len(planes)] = n - 1
+              /\ (spec[1] # "tuple" => planes[Len(planes)] = n - 1)
 EmitCase == (Emit /\ pc = "cfgstart" /\ cfg = ncfg) =>
               PrintT(<<"CASE", ToJson([n |-> n, ncfg |-> ncfg, spec |-> spec, planes |-> planes])>>)
 =============================================================================
